@@ -85,8 +85,8 @@ def cmd_check(a):
     max_runs, budget = meta["budgets"][tier]
     if a.runs:
         max_runs = a.runs
-    if a.budget:
-        budget = a.budget
+    if a.budget or os.environ.get("VERIF_BUDGET"):
+        budget = a.budget or float(os.environ["VERIF_BUDGET"])  # (trial runs against seeded changes: a shorter search)
     nworkers = a.workers or int(os.environ.get("VERIF_WORKERS", "0")) or min(16, os.cpu_count() or 4)
     variants = meta["variants"]
     if a.fw:
